@@ -8,6 +8,11 @@ from harness import wsgen, wsrun, wsoracle
 
 PROP = "C17"
 PROOF_MODULES = ["Abverif.Proofs.C17"]
+MANIFEST_ENTRY = {
+    "technique": 'Lean 4 theorems on the virtual clock (batched-timer floor lemmas, timer handlers, armed-deadline-implies-closed, inertness after close) + schedule lattice correspondence with an independent deadline oracle',
+    "text": 'Proved on the model: the batched deadline is never late and less than one second early, so a reaction >= 1 s before the nominal deadline precedes it; each timeout handler drops (abort) with its own reason exactly when the connection is not yet closed; an armed closing-handshake timer whose deadline has passed implies CLOSED (close_timeout_drops) and the peer reply cancels it; every timer callback is inert on a CLOSED connection. Tied to the code by running timeout/ping schedules (reactions on a 0.1 s lattice around each deadline, probes at deadline-8u/deadline/deadline+8u, one-hour advance after loss) on real Twisted (task.Clock) and asyncio (virtual loop) objects with exact comparison, plus an independent deadline oracle. Two defects found were repaired in /repo.',
+    "note": 'Trusted: Lean kernel; model tied by differential execution; virtual time only (no wall-clock drift or reactor latency); time unit 2^-20 s with _QUEUED_WRITE_DELAY patched to 2^-17 s for exact float arithmetic.',
+}
 TRUSTED = [
     "Lean 4.33 kernel; axioms of every theorem within {propext, Classical.choice, Quot.sound}",
     "hand-written model Abverif/Model/Ws.lean (timeout handlers, auto-ping, batched timer = floor(now+delay) seconds, plain "
